@@ -153,6 +153,8 @@ type ByteEnv struct {
 	// Prog, when set, lets the evaluation look into calls of repository
 	// functions whose result is determined by the byte (hexDigit(b)).
 	Prog *Program
+	// Body: the body explored (set by the explorations), for questions about definitions
+	Body ast.Node
 
 	cur   map[types.Object]int64 // values of tracked locals on the current path (booleans as 0/1)
 	unt   map[types.Object]bool
@@ -164,9 +166,59 @@ type ByteEnv struct {
 // variable), as opposed to a constant that happens to have the same value.
 const symFlag int64 = 1 << 40
 
+// dependsOnVar: e mentions the byte variable, or a local whose definitions
+// (in the statement list the vertex belongs to is not known here: anywhere in
+// the function) mention it.
+func (env *ByteEnv) dependsOnVar(e ast.Expr, at *V, depth int) bool {
+	found := false
+	var locals []types.Object
+	ast.Inspect(e, func(n ast.Node) bool {
+		if id, ok := n.(*ast.Ident); ok {
+			if o := env.Info.ObjectOf(id); o != nil {
+				if o == env.Var {
+					found = true
+				} else if v, isVar := o.(*types.Var); isVar && !v.IsField() {
+					locals = append(locals, o)
+				}
+			}
+		}
+		return !found
+	})
+	if found || depth == 0 || env.Body == nil {
+		return found
+	}
+	for _, l := range locals {
+		for _, d := range AssignsTo(env.Info, env.Body, l) {
+			switch x := d.(type) {
+			case *ast.AssignStmt:
+				for i, lhs := range x.Lhs {
+					if ObjOf(env.Info, lhs) == l {
+						if len(x.Rhs) == len(x.Lhs) && env.dependsOnVar(x.Rhs[i], at, depth-1) {
+							return true
+						}
+						if len(x.Rhs) == 1 && len(x.Lhs) > 1 && env.dependsOnVar(x.Rhs[0], at, depth-1) {
+							return true
+						}
+					}
+				}
+			case *ast.ValueSpec:
+				for _, v := range x.Values {
+					if env.dependsOnVar(v, at, depth-1) {
+						return true
+					}
+				}
+			}
+		}
+	}
+	return false
+}
+
 func (env *ByteEnv) isVar(e ast.Expr) bool {
 	e = ast.Unparen(e)
 	if id, ok := e.(*ast.Ident); ok && env.Var != nil && env.Info.ObjectOf(id) == env.Var {
+		if n, over := env.cur[env.Var]; over {
+			return n&symFlag != 0 // overwritten on this path
+		}
 		return true
 	}
 	if id, ok := e.(*ast.Ident); ok && env.cur != nil {
@@ -515,7 +567,48 @@ func (env *ByteEnv) step(x *V, store map[types.Object]int64, v int, unt map[type
 	}
 	var out map[types.Object]int64
 	set := func(obj types.Object, n int64, known bool) {
-		if obj == nil || obj == env.Var || unt[obj] {
+		if obj == env.Var && obj != nil {
+			// the byte variable itself is given a known value by a plain assignment
+			// (esc = table[esc]): from here on it is that value, not the input byte.
+			// (A new definition or an unknown value leaves the exploration as it was:
+			// every visit of the loop is made for the same byte.)
+			as, isAs := x.AST.(*ast.AssignStmt)
+			if !isAs || as.Tok != token.ASSIGN || !known {
+				return
+			}
+			// (a constant assigned to it -- "if w0 == 0 { tp = 1 }" -- starts another
+			// case, which the rules explore on its own: left as it was)
+			// Only a value computed from the variable itself is such a rewrite; anything else
+			// (the variable's own definition through a folded-in helper, a constant that starts
+			// another case) leaves the exploration as it was.
+			rewrite := false
+			for i, l := range as.Lhs {
+				if id, isID := ast.Unparen(l).(*ast.Ident); isID && env.Info.ObjectOf(id) == obj && i < len(as.Rhs) {
+					if tv, has := env.Info.Types[as.Rhs[i]]; has && tv.Value != nil {
+						return
+					}
+					rewrite = env.dependsOnVar(as.Rhs[i], x, 2)
+				}
+			}
+			if !rewrite {
+				return
+			}
+			if old, had := store[obj]; had && old == n {
+				return
+			}
+			if out == nil {
+				out = make(map[types.Object]int64, len(store)+1)
+				for k, val := range store {
+					out[k] = val
+				}
+			}
+			if os.Getenv("PDFVERIF_DEBUG_OVR") != "" {
+				fmt.Fprintf(os.Stderr, "OVERRIDE %s = %d at %s\n", obj.Name(), n, ExprStr(as.Rhs[0]))
+			}
+			out[obj] = n
+			return
+		}
+		if obj == nil || unt[obj] {
 			return
 		}
 		if env.only != nil && !env.only[obj] {
@@ -723,6 +816,9 @@ func (env *ByteEnv) ReachSet(g *Graph, starts []*V, site func(*V) bool, stop fun
 // expressions in the state in which the vertex is reached (before the vertex
 // itself is executed).
 func (env *ByteEnv) ReachSetState(g *Graph, starts []*V, site func(*V, *ByteState) bool, stop func(*V) bool) ByteSet {
+	if g.Body != nil {
+		env.Body = g.Body
+	}
 	var out ByteSet
 	var skip *ast.FuncLit
 	var body ast.Node = g.Body
@@ -811,6 +907,9 @@ func (env *ByteEnv) ReachSetState(g *Graph, starts []*V, site func(*V, *ByteStat
 // Traces longer than maxLen items are cut off with "...".  Branches and local
 // variables are followed as in ReachSet.
 func (env *ByteEnv) Traces(g *Graph, starts []*V, emit func(*V, *ByteState) string, stop func(*V) bool, maxLen int) [256]map[string]bool {
+	if g.Body != nil {
+		env.Body = g.Body
+	}
 	var out [256]map[string]bool
 	var skip *ast.FuncLit
 	var body ast.Node = g.Body
